@@ -193,6 +193,6 @@ fn differential(rec: &mut Rec, ctx: &Ctx, g: u64, _rng: &mut ChaCha20Rng) {
 
 pub fn run(ctx: &Ctx) -> Rec {
   let mut rec = par_run(ctx, "honest", ctx.n(3000, 100_000), |rec, i, rng| honest(rec, ctx, i, rng));
-  rec.merge(par_run(ctx, "differential", ctx.n(160, 8000), |rec, i, rng| differential(rec, ctx, i, rng)));
+  rec.merge(par_run(ctx, "differential", ctx.n(480, 16000), |rec, i, rng| differential(rec, ctx, i, rng)));
   rec
 }
